@@ -34,15 +34,22 @@ def side(s, expected, kp):
 
 
 @core.safe_case
-def one(ctx, pts, K, E, t, family):
+def one(ctx, pts, K, E, t, family, int_dtype=None):
     import kneeliverse.evaluation as ev
     n = len(pts)
     K = [int(k) for k in K]
     E = np.array(E, dtype=float).reshape(-1, 2)
-    case = dict(points=pts.tolist(), knees=K, expected=E.tolist(), t=float(t))
+    if int_dtype is None:
+        int_dtype = bool(gen.int_ok(pts) and gen.int_ok(E) and ctx.rng.random() < 0.4)
+    case = dict(points=pts.tolist(), knees=K, expected=E.tolist(), t=float(t), int_dtype=bool(int_dtype))
     site = 'evaluation.cm'
+    # integral curves are also raw counts: the REAL calls then get int64 arrays, every reference below keeps the float64 copies
+    pin, Ein = pts, E
+    if int_dtype:
+        ctx.tag('input:int64-dtype')
+        pin, Ein = pts.astype(np.int64), E.astype(np.int64)
     try:
-        m = np.asarray(ev.cm(pts, np.array(K, dtype=int), E, t))
+        m = np.asarray(ev.cm(pin, np.array(K, dtype=int), Ein, t))
         tp, fp, fn, tn = int(m[0][0]), int(m[0][1]), int(m[1][0]), int(m[1][1])
     except Exception as e:
         ctx.fail('predicate', 'cm-completes', site, case, repr(e)[:200])
@@ -111,7 +118,7 @@ def one(ctx, pts, K, E, t, family):
     for s in ('knees', 'expected', 'best', 'worst'):
         S = getattr(ev.Strategy, s)
         try:
-            mae, mse, rmse, rmspe = (float(ev.mae(pts, K, E, S)), float(ev.mse(pts, K, E, S)), float(ev.rmse(pts, K, E, S)), float(ev.rmspe(pts, K, E, S)))
+            mae, mse, rmse, rmspe = (float(ev.mae(pin, K, Ein, S)), float(ev.mse(pin, K, Ein, S)), float(ev.rmse(pin, K, Ein, S)), float(ev.rmspe(pin, K, Ein, S)))
         except Exception as e:
             ctx.fail('predicate', 'error-scores-complete', f'evaluation.mae/mse/rmse/rmspe[{s}]', case, repr(e)[:200])
             continue
@@ -146,6 +153,11 @@ def one(ctx, pts, K, E, t, family):
             ctx.fail('correspondence', 'maeQ/mseQ2 (exact nearest-neighbour matching) vs float', f'evaluation.mae/mse[{s}]', case, dict(sd, model_mae=float(qmae), model_mse=float(qmse)))
         if np.all(a[:, 0] > 2.0 ** -10) and np.all(a[:, 1] > 2.0 ** -10) and math.isfinite(rmspe):
             if abs(F(rmspe * rmspe) - qrp) > F(1, 10 ** 9) * (abs(qrp) + 1):
+                if has_tie():
+                    # two candidates whose distances differ by less than float resolution (e.g. equal byte counts, abscissae a few units apart):
+                    # np.linalg.norm cannot tell them apart, the relative error of the x coordinate can
+                    ctx.tag('tie:(near-)equidistant-nearest-neighbours(relational)')
+                    continue
                 ctx.fail('correspondence', 'rmspeSqQ vs float', f'evaluation.rmspe[{s}]', case, dict(sd, model=float(qrp)))
         if len(E) == len(kp) and sorted(map(tuple, E.tolist())) == sorted(map(tuple, kp.tolist())):       # E is exactly the knee points, in ANY order
             if mae != 0 or mse != 0 or rmse != 0 or rmspe != 0:
@@ -189,6 +201,11 @@ def run(ctx):
             p2, e2 = gen.magnitude_of(kind, pts), gen.magnitude_of(kind, E)
             if np.all(np.diff(p2[:, 0]) > 0):
                 pts, E, fam = p2, e2, fam + '@' + kind
+        elif rng.random() < 0.08 and mode in ('subset', 'exactK'):
+            # raw byte counts (heights k * 2^33 over small integer abscissae), delivered as int64 arrays most of the time
+            idxE = [int(np.argmin(np.abs(pts[:, 0] - ex))) for ex in E[:, 0]]
+            pts = gen.bytecount_of(pts)
+            E, fam = pts[idxE].copy(), fam + '@bytecount'
         dxx = float(pts[-1, 0] - pts[0, 0])
         if rng.random() < 0.4:
             kx = pts[K][:, 0]
@@ -201,4 +218,4 @@ def run(ctx):
 
 def replay(ctx, body):
     c = body['case']
-    one(ctx, np.array(c['points'], float), c['knees'], c['expected'], c['t'], 'replay')
+    one(ctx, np.array(c['points'], float), c['knees'], c['expected'], c['t'], 'replay', bool(c.get('int_dtype', False)))
